@@ -372,6 +372,36 @@ fn exec_inner(line: &str) -> String {
             let b = h!(s);
             by_enc!(*e, norm, &b)
         }
+        // `absolutize` against the process's current directory, which the op line carries (native bytes)
+        // so that the model can be given the same one
+        ["abs", e, cwd, s] => {
+            #[cfg(all(feature = "std", unix))]
+            {
+                use std::os::unix::ffi::OsStrExt;
+                let (want_cwd, b) = (h!(cwd), h!(s));
+                let here = match std::env::current_dir() {
+                    Ok(p) => p,
+                    Err(_) => return BAD.into(),
+                };
+                if here.as_os_str().as_bytes() != want_cwd.as_slice() && std::env::set_current_dir(std::ffi::OsStr::from_bytes(&want_cwd)).is_err() {
+                    return BAD.into();
+                }
+                let r = match *e {
+                    "u" => UnixPath::new(&b).absolutize().map(|x| x.into_vec()),
+                    "w" => WindowsPath::new(&b).absolutize().map(|x| x.into_vec()),
+                    _ => return BAD.into(),
+                };
+                match r {
+                    Ok(v) => hex(&v),
+                    Err(_) => "io-error".into(),
+                }
+            }
+            #[cfg(not(all(feature = "std", unix)))]
+            {
+                let _ = (e, cwd, s);
+                BAD.into()
+            }
+        }
         ["push", e, a, b] => {
             let (a, b) = (h!(a), h!(b));
             by_enc!(*e, push, &a, &b)
